@@ -25,6 +25,8 @@ RULE = ("three streams, in this order. (1) corpus of past witnesses. (2) STRUCTU
         "(3) random mixed graphs (0-8 nodes; isolated nodes, bidirected-only nodes, parallel directed+bidirected pairs, "
         "cycles for the operations defined on them, random insertion order) x every operation x random node subsets "
         "(empty, all, partial, and non-members). "
+        "quick: 30 000 structured + 40 000 random cases; when graph.py changed since integration the quick run also gets the "
+        "exhaustive slice below (ESCALATED_TIER); thorough: 100 000 structured + 200 000 random cases and "
         "thorough adds EVERY mixed graph without self-loops on 0..3 labelled nodes (1+1+8+512 graphs) x EVERY operation x "
         "every argument: all subsets S (all pairs S,T for get_nodes_in_directed_paths; every node and one non-node for "
         "get_district; for pre with an explicit order every S x every permutation of the node set and the empty order; "
